@@ -59,7 +59,7 @@ class LiteDRAMNativePortECCW(Module):
                 ),
                 source.data[i*ecc_width_to:(i+1)*ecc_width_to].eq(encoder.o),
                 # Byte enable granularity  error detection.
-                If(sink.valid & (sink.we[i*ecc_width_from//8:(i+1)*ecc_width_from//8] != (2**ecc_width_from//8-1)),
+                If(sink.valid & (sink.we[i*ecc_width_from//8:(i+1)*ecc_width_from//8] != (2**(ecc_width_from//8)-1)),
                     self.we_error.eq(1)
                 )
             ]
